@@ -167,6 +167,9 @@ pub fn check(case: &Case, obs: &mut Obs, which: Which, ctx: &Ctx) -> CheckResult
     let mut nontrivial = false;
     let n0 = n;
     let mut removed_since_decision = false;
+    // the harness's own record: a REG3 was delivered to the link since its last teardown (keyed by link identity)
+    let mut my_last: Option<u64> = None;
+    let mut registered: std::collections::BTreeMap<u64, bool> = sh.st.conns.iter().map(|c| (c.conn_id, true)).collect();
 
     for (oi, op) in case.ops.iter().enumerate() {
         let n = sh.st.conns.len();
@@ -174,6 +177,7 @@ pub fn check(case: &Case, obs: &mut Obs, which: Which, ctx: &Ctx) -> CheckResult
             break;
         }
         let eligible_before: Vec<bool> = sh.st.conns.iter().map(|c| c.connected && !matches!(c.phase, LinkPhase::Registering)).collect();
+        let connected_before: Vec<(u64, bool)> = sh.st.conns.iter().map(|c| (c.conn_id, c.connected)).collect();
         match op {
             Op::Advance(d) => sh.advance(*d as u64),
             Op::Flush => sh.flush_tick(),
@@ -220,7 +224,10 @@ pub fn check(case: &Case, obs: &mut Obs, which: Which, ctx: &Ctx) -> CheckResult
                         obs.class("reg-err-delivered");
                         vec![0x92, 0x10]
                     }
-                    Up::Reg3 => vec![0x92, 0x02],
+                    Up::Reg3 => {
+                        registered.insert(sh.st.conns[li].conn_id, true);
+                        vec![0x92, 0x02]
+                    }
                     Up::Ngp => vec![0x92, 0x11],
                     Up::Control => vec![0x80, 0x06, 0, 0, 0, 0, 0, 0, 0, 0, 0, 0, 0, 0, 0, 0],
                     Up::Echo(age) => {
@@ -277,14 +284,16 @@ pub fn check(case: &Case, obs: &mut Obs, which: Which, ctx: &Ctx) -> CheckResult
                     let usable: Vec<usize> = (0..n)
                         .filter(|i| {
                             let c = &sh.st.conns[*i];
-                            !matches!(c.phase, LinkPhase::Registering) && c.connected && c.last_received.is_some_and(|lr| now.saturating_sub(lr) < timeout)
+                            registered.get(&c.conn_id).copied().unwrap_or(false) && c.connected && c.last_received.is_some_and(|lr| now.saturating_sub(lr) < timeout)
                         })
                         .collect();
                     let critical_open = sh.st.critical.is_critical_now(now);
                     // C11: what the scheduler answers for the anchor the glue is supposed to pass
                     let plain = *kind == 0 && !critical_open;
                     let expected: Option<Option<usize>> = if which == Which::C11 && plain && !sh.st.cfg.mode.is_classic() {
-                        let anchor = if removed_since_decision { None } else { sh.st.last_selected };
+                        // the previously selected uplink is the harness's own record: where the previous client
+                        // datagram (of any kind) landed
+                        let anchor = if removed_since_decision { None } else { my_last.and_then(|cid| sh.st.conns.iter().position(|c| c.conn_id == cid)) };
                         let cfg = sh.st.cfg;
                         Some(srtla_core::selection::select_connection_idx(&mut sh.st.conns, anchor, now, &cfg))
                     } else {
@@ -320,6 +329,13 @@ pub fn check(case: &Case, obs: &mut Obs, which: Which, ctx: &Ctx) -> CheckResult
                                 ctx.filter_known(r, &mut o2)?;
                                 obs.known_hits.append(&mut o2.known_hits);
                             }
+                        }
+                    }
+                    {
+                        // record where this datagram landed (the unique copy: the holder that is not a probe target)
+                        let ungated: Vec<usize> = holders.iter().copied().filter(|i| !sh.st.conns[*i].is_stall_gated()).collect();
+                        if ungated.len() == 1 {
+                            my_last = Some(sh.st.conns[ungated[0]].conn_id);
                         }
                     }
                     if let Some(exp) = expected {
@@ -476,6 +492,12 @@ pub fn check(case: &Case, obs: &mut Obs, which: Which, ctx: &Ctx) -> CheckResult
                         }
                     }
                 }
+            }
+        }
+        // a link that was torn down in this step is no longer registered
+        for (cid, was) in &connected_before {
+            if *was && sh.st.conns.iter().any(|c| c.conn_id == *cid && !c.connected) {
+                registered.insert(*cid, false);
             }
         }
         // wire clause: a link that was registering / disconnected before this step carries no stream data
